@@ -1,5 +1,71 @@
-import Compio.Model.ChildIo
+/-
+C20 — machine-checked witnesses of the two defects found on the unchanged tree.
+
+F200: polling driver + blocking pipe descriptors: a `write` on the child's stdin occupies the runtime
+      thread until the whole chunk is in the pipe; with an echoing child and more bytes in one write
+      than stdin pipe + child buffer + stdout pipe hold, the reader of stdout can never run: deadlock.
+      (Props.concurrent_complete is the same scenario with `blocking = false`: always finishes.)
+F201: `Child::wait(self)` / `wait_with_output(self)` close a still-contained `stdin` only when they
+      return (plan `held`); a child that reads to end of file never exits, the wait never returns.
+      (`std::process` closes stdin before waiting: that is plan `conc`/`drainWait` with an empty payload,
+      covered by Props.concurrent_complete.)
+-/
+import Compio.Lemmas.ChildIo
 
 namespace Compio.ChildIo
+
+/-- F200, all sizes: polling driver (`blocking`), the whole payload offered in one `write`
+(`payload.length ≤ wchunk`), echoing child, payload larger than both pipes and the child's buffer:
+no schedule at all reaches the end — although reader and writer are concurrent tasks. -/
+theorem F200_counterexample {c : Cfg} {blk : Nat} {tail : List CAct} {payload : Bytes} {es : List Ev} {s : St}
+    (hq : quiet tail = true) (hb : c.blocking = true) (hch : payload.length ≤ c.wchunk)
+    (hbig : c.capIn + blk + c.capOut < payload.length)
+    (hr : run c (init (.copy none blk .out :: tail) payload false) es = some s) :
+    s.completed = false ∧ s.wclosed = false ∧ s.rout = [] := by
+  have hk : WriterStuck blk (init (.copy none blk .out :: tail) payload false) :=
+    ⟨rfl, rfl, rfl, tail, rfl⟩
+  have := oneWrite_never_run (inv_init c _ payload false) (catInv_init blk tail hq payload false) hk
+    (Or.inl ⟨rfl, rfl⟩) (by simpa [init] using hbig) hb (by simpa [init] using hch) hr
+  exact ⟨writerStuck_not_completed this, this.open_, this.noRead⟩
+
+/-- F200, concrete (`f200Cfg`: polling driver, 1-byte pipes, a 1-byte `cat`, 4 bytes in one `write`,
+everything concurrent): the canonical schedule ends stuck with nothing finished: one byte in each pipe, one in
+the child's buffer, one still in the `write` call that occupies the runtime thread. -/
+theorem F200_witness :
+    let s := runCanon f200Cfg 100 (init [.copy none 1 .out, .exit 0] [1, 2, 3, 4] false)
+    (next f200Cfg s).isNone = true ∧ s.completed = false ∧ s.wblock = 1 ∧ s.wleft = [4] ∧ s.pin = [3] ∧
+      s.pend = [2] ∧ s.pout = [1] ∧ s.rout = [] := by
+  decide
+
+/-- the same scenario on io_uring (`blocking = false`) finishes with the four bytes echoed -/
+theorem F200_witness_uring :
+    let s := runCanon { f200Cfg with blocking := false } 100 (init [.copy none 1 .out, .exit 0] [1, 2, 3, 4] false)
+    s.completed = true ∧ s.rout = [1, 2, 3, 4] ∧ s.wt = .done (.exited 0) := by
+  decide
+
+/-- F201, all sizes: the writer's close waits for the wait (`stdin` is still inside the `Child`), the child
+reads to end of file: no schedule finishes, the wait never completes, the child never exits. -/
+theorem F201_counterexample {c : Cfg} {blk : Nat} {dst : Dst} {tail : List CAct} {payload : Bytes} {es : List Ev}
+    {s : St} (hheld : c.plan.deps .W .Wt = true)
+    (hr : run c (init (.copy none blk dst :: tail) payload false) es = some s) :
+    s.completed = false ∧ s.wt.isDone = false ∧ s.status = none := by
+  have hk : HeldStuck (init (.copy none blk dst :: tail) payload false) :=
+    ⟨rfl, rfl, rfl, blk, dst, tail, rfl⟩
+  have := heldStuck_run hk hheld hr
+  exact ⟨by simp [St.completed, this.open_], this.notWaited, this.alive⟩
+
+/-- F201, concrete: `cat` with `child.wait().await` and nothing else: stuck after the wait has started -/
+theorem F201_witness :
+    let c : Cfg := { exCfg with plan := .held, pidfd := false }
+    let s := runCanon c 100 (init [.copy none 4 .out, .exit 0] [] false)
+    (next c s).isNone = true ∧ s.completed = false ∧ s.wt = .started ∧ s.wclosed = false ∧ s.status = none := by
+  decide
+
+/-- what `std::process::Child::wait` does — close stdin first — finishes -/
+theorem F201_witness_std_order :
+    let c : Cfg := { exCfg with plan := .drainWait, pidfd := false }
+    let s := runCanon c 100 (init [.copy none 4 .out, .exit 0] [] false)
+    s.completed = true ∧ s.wt = .done (.exited 0) := by
+  decide
 
 end Compio.ChildIo
